@@ -51,8 +51,8 @@ def family(name, eps, seed=0, nsym=7, gamma=('x',)):
         # stack symbols of several characters next to their own pieces: the stacks [ab] and [a, b] must stay different
         gamma = ('a', 'b', 'ab')
         fixed = [('p', 'a', e, 'q', 'ab')]
-        sym = [('p', 'a', e, 'p', 'a'), ('p', e, e, 'q', 'b'), ('q', e, 'ab', 'p', e), ('q', 'a', 'b', 'q', e), ('q', e, 'a', 'p', e),
-               ('q', 'a', 'ab', 'q', 'a'), ('p', e, 'a', 'q', 'ab'), ('q', e, 'b', 'q', e)]
+        sym = [('q', e, 'ab', 'p', e), ('q', 'a', 'ab', 'q', 'a'), ('q', 'a', e, 'q', 'b'), ('p', 'a', e, 'p', 'a'), ('p', e, e, 'q', 'b'),
+               ('q', 'a', 'b', 'q', e), ('q', e, 'a', 'p', e), ('p', e, 'a', 'q', 'ab')]
     elif name == 'percent_stack':
         # '%' (the comment character of the text format) as a stack symbol
         gamma = ('%', 'x')
@@ -179,7 +179,7 @@ def jobs(tier):
         for seed in range(4):
             add('random%d_limit2' % seed, job_accepts, fam='random', seed=seed, limit=2, maxlen=2, timeout=600)
             add('random%d_limit3' % seed, job_accepts, fam='random', seed=seed, limit=3, maxlen=2, timeout=600)
-        add('multichar_stack_limit2', job_accepts, fam='multichar_stack', limit=2, maxlen=2, nsym=6, timeout=600)
+        add('multichar_stack_limit3', job_accepts, fam='multichar_stack', limit=3, maxlen=3, nsym=4, timeout=600)
         add('limit_read_per_call', job_limit_is_read_per_call)
     else:
         for fam in ('grow_cycle', 'replace_and_pop', 'two_stack_symbols'):
